@@ -32,6 +32,9 @@ func spellings(t string) []string {
 	if r.IsInt() && r.Num().IsInt64() && r.Num().Int64() != 0 && abs64(r.Num().Int64()) < 1000 {
 		n := r.Num().Int64()
 		out = append(out, fmt.Sprintf("%d.0", n), fmt.Sprintf("%d.00", n), fmt.Sprintf("%de0", n))
+		if n > 0 {
+			out = append(out, fmt.Sprintf("0%d", n), fmt.Sprintf("00%d", n), fmt.Sprintf("0%d.0", n)) // zero-padded: still decimal
+		}
 		if n%10 == 0 {
 			out = append(out, fmt.Sprintf("%de1", n/10))
 		}
